@@ -131,11 +131,18 @@ class Gen:
                 return "indented", "indented %s ;" % " ".join(h(l) for l in lines)
             if k < 0.72: return "quote", "quote ( %s )" % " ".join(self.inls(brk=False, hi=3) for _ in range(r.randint(1, 3)))
             if k < 0.88 and prev != "list":
+                n = r.randint(1, 4)
+                loose = r.choice("lt") if n > 1 else "t"
                 items = []
-                for _ in range(r.randint(1, 4)):
-                    sub = " ".join(self.inls(brk=False, hi=2) for _ in range(r.randint(1, 2))) if r.random() < 0.2 else ""
-                    items.append("%s ( %s )" % (self.inls(brk=False, hi=3), sub))
-                return "list", "list %s %s ( %s )" % (r.choice("ou"), r.choice("lt") if len(items) > 1 else "t", " ".join(items))
+                for i in range(n):
+                    nsub = r.randint(1, 3) if r.random() < 0.25 else 0
+                    sub = " ".join(self.inls(brk=False, hi=2) for _ in range(nsub))
+                    # a nested list with blank lines between its items is loose by itself; in an item that is not the last one
+                    # of a tight list those blank lines would also make the outer list loose, so it is generated only where the
+                    # outer list keeps its own kind: in a loose list, or in the last item
+                    subloose = "l" if nsub > 1 and (loose == "l" or i == n - 1) and r.random() < 0.5 else "t"
+                    items.append("%s %s ( %s )" % (self.inls(brk=False, hi=3), subloose, sub))
+                return "list", "list %s %s ( %s )" % (r.choice("ou"), loose, " ".join(items))
             if k >= 0.88 and not self.compat and prev != "table":
                 ncol = r.randint(1, 5)
                 aligns = "".join(r.choice("lcrn") for _ in range(ncol))
